@@ -1,6 +1,7 @@
 package cat
 
 import (
+	"time"
 	"context"
 	"math"
 
@@ -492,6 +493,17 @@ func MoreRows() []Row {
 	add(intRow("ContextWithValue", "ContextWithValue", S, func(e *Env) Op[int, int] {
 		return Op[int, int](ro.ContextWithValue[int](h.KeyMid, "mid"))
 	}, identity))
+	add(intRow("ContextWithDeadline(+1h)", "ContextWithDeadline", S, func(e *Env) Op[int, int] {
+		return Op[int, int](ro.ContextWithDeadline[int](time.Now().Add(time.Hour)))
+	}, identity))
+	{
+		// ContextReset replaces every item context by design: C09 does not look for the upstream values behind it
+		cr := intRow("ContextReset(background)", "ContextReset", S, func(e *Env) Op[int, int] {
+			return Op[int, int](ro.ContextReset[int](context.Background()))
+		}, identity)
+		cr.Class |= CtxBackground
+		add(cr)
+	}
 	add(intRow("ContextMap", "ContextMap", S, func(e *Env) Op[int, int] {
 		return Op[int, int](ro.ContextMap[int](func(ctx context.Context) context.Context { e.Hit("project"); return e.Ctx("project", ctx) }))
 	}, identity))
